@@ -439,6 +439,11 @@ func (w *Writer) dumpObjectIndex() error {
 		}
 		last = k
 	}
+	if maxCommon+1 >= 1<<5 {
+		// The footer stores the ID length in 5 bits. Without an
+		// object index, RefsFor scans the refs linearly.
+		return nil
+	}
 	w.Stats.ObjectIDLen = maxCommon + 1
 
 	w.blockWriter = w.newBlockWriter(blockTypeObj)
